@@ -142,13 +142,14 @@ def check_open_alloc(rep, facts, a, inplace_key):
     rep.check(n_prop >= 1, 'R05.6', fn, 'error-propagated', '%d return(s) carry the in-place open\'s error' % n_prop,
               'the in-place open\'s error reaches the caller', where(a, a.term_point(bi)))
     # R05.5: the split index
-    sp = a.calls(lambda c: c['name'] in ('split_at', 'split_at_checked', 'split_last_chunk'))
-    if len(sp) != 1 or sp[0][2]['name'] != 'split_at':
-        rep.undecided('R05.5', fn, 'split', '%d split call(s)' % len(sp), 'one split_at(len - tag_len) of the input', where(a))
+    from .c14 import open_split
+    os_ = open_split(a)
+    if os_ is None:
+        rep.undecided('R05.5', fn, 'split', 'no single split of the input found', 'one split_at(len - tag_len) of the input (or the two complementary index expressions)', where(a))
         return
-    sbi, st, _ = sp[0]
-    whole = a.arg_val(sbi, 0)
-    idx = a.arg_val(sbi, 1)
+    sbi = os_['site']
+    whole = ('param', 2)
+    idx = os_['k']
     ctparam = 2
     okw = whole == ('param', ctparam)
     rep.check(okw, 'R05.5', fn, 'split-whole-input', pp(whole), 'split_at applied to the whole ciphertext parameter', where(a, a.term_point(sbi)))
@@ -168,7 +169,8 @@ def check_open_alloc(rep, facts, a, inplace_key):
         y = idx[3]
         if y[0] == 'call' and y[1] == 'Serializable::size' and y[4] and (y[4][2] or '').startswith('aead::AeadTag<'):
             from .common import cmp_guard
-            g = cmp_guard(a, sbi, idx[2], y)
+            gs = [cmp_guard(a, b2, idx[2], y) for b2 in os_['sites']]
+            g = {'guards': min(x['guards'] for x in gs), 'lt': any(x['lt'] for x in gs), 'eq': all(x['eq'] for x in gs), 'gt': all(x['gt'] for x in gs)}
             exact = g['guards'] >= 1 and not g['lt'] and g['eq'] and g['gt']
             rep.check(exact, 'R05.5', fn, 'split-guard', 'split reachable for len < Nt: %s, len == Nt: %s, len > Nt: %s (%d comparison guard(s))' % (g['lt'], g['eq'], g['gt'], g['guards']),
                       'the split is reached exactly when len >= Nt (len == Nt is the sealing of the empty plaintext and must be accepted)', where(a, a.term_point(sbi)))
